@@ -16,7 +16,7 @@ func init() {
 			"a rejected operation's error is returned by the transaction body (the library's rollback contract)"},
 		Plan: func(tier core.Tier, seed int64) int {
 			if tier == core.Thorough {
-				return 24000
+				return 60000
 			}
 			return 640
 		},
